@@ -40,7 +40,7 @@ static cell_ptr build_cell(const CellSpec& cs, int xform, int slot, unsigned id,
 
 static std::string run_case(const Case& cs, long* free_slot_cells = nullptr) {
     std::vector<cell_type_param_ptr> types; for (short g = 0; g < 5; g++) types.push_back(sc::make_cell_type(g, 3));
-    std::vector<cell_ptr> cells; for (size_t i = 0; i < cs.cells.size(); i++) cells.push_back(build_cell(cs.cells[i], cs.xform, (int)i, cs.ids ? (unsigned)(2 * i + 1) : (unsigned)i, types)); for (size_t i = 0; i < cells.size(); i++) cells[i]->set_local_id((unsigned)i);
+    std::vector<cell_ptr> cells; for (size_t i = 0; i < cs.cells.size(); i++) cells.push_back(build_cell(cs.cells[i], cs.xform, (int)i, cs.ids == 1 ? (unsigned)(2 * i + 1) : cs.ids == 2 ? (unsigned)(70000 + 3 * i) : (unsigned)i, types)); for (size_t i = 0; i < cells.size(); i++) cells[i]->set_local_id((unsigned)i);
     if (free_slot_cells) for (auto& c : cells) if (!c->free_node_queue_.empty() || !c->free_face_queue_.empty()) (*free_slot_cells)++;
     // what must come back: per cell the compacted triangle list (live faces in slot order, node ids renumbered by rank among live nodes) and coordinates
     struct Expect { std::vector<std::array<double, 3>> pos; std::vector<std::array<unsigned, 3>> tri; short type; };
@@ -83,20 +83,22 @@ static std::string run_case(const Case& cs, long* free_slot_cells = nullptr) {
 
 static std::string case_text(const Case& c) { std::ostringstream o; o << c.xform << " " << c.writer << " " << c.cells.size(); for (auto& s : c.cells) o << " " << s.mesh << " " << s.type << " " << s.history; o << " " << c.ids; return o.str(); }
 static Case case_parse(const std::string& s) { std::istringstream i(s); Case c; size_t n; i >> c.xform >> c.writer >> n; c.cells.resize(n); for (auto& x : c.cells) i >> x.mesh >> x.type >> x.history; if (!(i >> c.ids)) c.ids = 0; return c; }
-static std::string case_json(const Case& c) { std::ostringstream o; o << "{\"persistent_ids\":\"" << (c.ids ? "2*position+1" : "position") << "\",\"writer\":\"" << (c.writer ? "write_cell_data_file" : "mesh_writer::write") << "\",\"coordinate_transform\":" << c.xform << ",\"cells\":["; for (size_t i = 0; i < c.cells.size(); i++) { if (i) o << ","; o << "{\"mesh\":\"" << g_meshes[c.cells[i].mesh].name << "\",\"type\":" << c.cells[i].type << ",\"history\":" << c.cells[i].history << "}"; } o << "]}"; return o.str(); }
+static std::string case_json(const Case& c) { std::ostringstream o; o << "{\"persistent_ids\":\"" << (c.ids == 1 ? "2*position+1" : c.ids == 2 ? "70000+3*position" : "position") << "\",\"writer\":\"" << (c.writer ? "write_cell_data_file" : "mesh_writer::write") << "\",\"coordinate_transform\":" << c.xform << ",\"cells\":["; for (size_t i = 0; i < c.cells.size(); i++) { if (i) o << ","; o << "{\"mesh\":\"" << g_meshes[c.cells[i].mesh].name << "\",\"type\":" << c.cells[i].type << ",\"history\":" << c.cells[i].history << "}"; } o << "]}"; return o.str(); }
 
-static void setup() { using namespace sc; g_meshes = {tetrahedron(), octahedron(), cube12(), icosahedron(), dented_cube(), icosphere(1)}; g_dir = std::string(getenv("VERIF_DIR") ? getenv("VERIF_DIR") : ".") + "/build/run/C16-" + std::to_string(getpid()); std::filesystem::create_directories(g_dir); }
+static void setup() { using namespace sc; g_meshes = {tetrahedron(), octahedron(), cube12(), icosahedron(), dented_cube(), icosphere(1), icosphere(6) /* index 6: 40962 nodes, only used by the one large population */}; g_dir = std::string(getenv("VERIF_DIR") ? getenv("VERIF_DIR") : ".") + "/build/run/C16-" + std::to_string(getpid()); std::filesystem::create_directories(g_dir); }
 
 static void explore(Result& R) {
     const bool th = R.args.thorough(); setup(); long cases = 0, with_free = 0;
     std::vector<Case> all;
-    int nx = 2 * NS; int nm = (int)g_meshes.size();
+    int nx = 2 * NS; int nm = (int)g_meshes.size() - 1;
     // single cells: every mesh x type x history x transform x writer
     for (int m = 0; m < nm; m++) for (int t = 0; t < 5; t++) for (int h = 0; h < 5; h++) for (int x = 0; x < nx; x++) for (int w = 0; w < 2; w++) { if (!th && (x % NS == 1 || (x >= NS && x % NS >= 2)) && h != 2) continue; if (h == 4 && !th && t != 0 && t != 3) continue; all.push_back({{{m, t, h}}, x, w}); }
     // pairs and triples: type combinations x a few meshes (node offsets of the second/third cell matter)
     for (int t1 = 0; t1 < 5; t1++) for (int t2 = 0; t2 < 5; t2++) for (int h1 : {0, 2}) for (int h2 : {0, 3}) for (int x : {0, 2, NS + 1, 4, 5}) for (int w = 0; w < 2; w++) { if (x >= 4 && x < NS && (t1 + t2) % 2) continue; all.push_back({{{1, t1, h1}, {2, t2, h2}}, x, w}); }
     for (int m1 = 0; m1 < nm; m1++) for (int m2 = 0; m2 < nm; m2++) for (int m3 : {0, 3, 5}) for (int h : {0, 2}) { if (!th && (m1 + m2) % 2) continue; all.push_back({{{m1, 0, h}, {m2, 1, 0}, {m3, 3, h}}, NS, 0}); all.push_back({{{m1, 2, 0}, {m2, 4, h}, {m3, 0, 3}}, 0, 1}); }
-    { size_t n0 = all.size(); for (size_t i = 0; i < n0; i++) if (all[i].cells.size() >= 2 && (th || i % 2 == 0)) { Case c = all[i]; c.ids = 1; all.push_back(c); } }   // the same populations with persistent ids that differ from the list positions
+    // one large population: two cells of 40962 nodes / 81920 triangles each (point and cell numbers beyond 16 bits, offsets of the second cell beyond 32767)
+    for (int w = 0; w < 2; w++) all.push_back({{{6, 0, 0}, {6, 2, 0}}, 0, w});
+    { size_t n0 = all.size(); for (size_t i = 0; i < n0; i++) if (all[i].cells.size() >= 2 && (th || i % 2 == 0)) { Case c = all[i]; c.ids = 1; all.push_back(c); if (i % 4 == 0) { c.ids = 2; all.push_back(c); } } }   // the same populations with persistent ids that differ from the list positions
     long unit = 0; for (const Case& c : all) { if (!R.args.mine(unit++)) continue; if (R.out_of_time(0.9)) { R.cap("deadline"); break; } cases++;
         std::string dg; g_digest = &dg; std::string e = run_case(c, &with_free); g_digest = nullptr; R.mix(dg + e); R.distinct_case(dg);
         if (!e.empty()) R.violation(clause_of(e) + "|" + (c.writer ? "write_cell_data_file" : "mesh_writer::write") + "|cells=" + std::to_string(c.cells.size()), e + " [" + case_json(c) + "]", "case=" + case_text(c) + "\n");
